@@ -7,17 +7,32 @@ import (
 	"fmt"
 	"os"
 	"os/signal"
-	"strings"
 	"syscall"
 
 	"verifharness/pgmem"
 )
 
+func report(d *pgmem.DB) {
+	u, why := d.Unsupported(), d.UnsupportedReasons()
+	fmt.Fprintf(os.Stderr, "unsupported statements: %d\n", len(u))
+	for i := range u {
+		fmt.Fprintf(os.Stderr, "--- %s\n%s\n", why[i], u[i])
+	}
+}
+
 func main() {
 	addr := flag.String("addr", "127.0.0.1:0", "listen address")
 	dbname := flag.String("db", "testdb", "database name printed in the URL")
+	scan := flag.String("scan", "insertion", "scan order for unordered queries: insertion, reverse, shuffle")
+	seed := flag.Uint64("seed", 1, "seed for -scan shuffle")
 	flag.Parse()
 	srv := pgmem.NewServer()
+	switch *scan {
+	case "reverse":
+		srv.DB(*dbname).SetScanOrder(pgmem.ScanReverse, 0)
+	case "shuffle":
+		srv.DB(*dbname).SetScanOrder(pgmem.ScanShuffle, *seed)
+	}
 	bound, err := srv.ListenTCP(*addr)
 	if err != nil {
 		fmt.Fprintln(os.Stderr, err)
@@ -28,13 +43,11 @@ func main() {
 	signal.Notify(ch, syscall.SIGINT, syscall.SIGTERM, syscall.SIGUSR1)
 	for sig := range ch {
 		if sig == syscall.SIGUSR1 {
-			u := srv.DB(*dbname).Unsupported()
-			fmt.Fprintf(os.Stderr, "unsupported statements: %d\n%s\n", len(u), strings.Join(u, "\n---\n"))
+			report(srv.DB(*dbname))
 			continue
 		}
 		break
 	}
-	u := srv.DB(*dbname).Unsupported()
-	fmt.Fprintf(os.Stderr, "unsupported statements: %d\n%s\n", len(u), strings.Join(u, "\n---\n"))
+	report(srv.DB(*dbname))
 	srv.Close()
 }
